@@ -21,3 +21,16 @@ func VerifTLSFSizeClass(size int) (memoryClass uint8, secondIndex uint16, listIn
 func VerifBlocksOnSamePage(resourceOffset1, resourceSize1, resourceOffset2, pagesize int) bool {
 	return blocksOnSamePage(resourceOffset1, resourceSize1, resourceOffset2, pagesize)
 }
+
+// VerifFreeLists exposes the TLSF free-list structure: for every free list the offsets of its blocks in
+// list order, the first-level bitmap and all second-level bitmaps.
+func (m *TLSFBlockMetadata) VerifFreeLists() (lists [][]int, outer uint32, inner []uint32) {
+	lists = make([][]int, len(m.freeList))
+	for i, b := range m.freeList {
+		for n := 0; b != nil && n < 1<<20; b, n = b.nextFree, n+1 {
+			lists[i] = append(lists[i], b.offset)
+		}
+	}
+	inner = append(inner, m.innerIsFreeBitmap[:]...)
+	return lists, m.isFreeBitmap, inner
+}
